@@ -234,3 +234,113 @@ Proof.
   cbn [forallb] in H. apply andb_prop in H. destruct H as [Hc Hr].
   cbn [remove_ws filter]. rewrite Hc. f_equal. exact (IH Hr).
 Qed.
+
+(* ---- more about trimming *)
+Lemma trim_right_app_keep : forall a c b, is_space c = false ->
+  trim_right ((a ++ [c]) ++ b) = (a ++ [c]) ++ trim_right b.
+Proof.
+  intros a c b H. unfold trim_right. rewrite rev_app_distr.
+  destruct (trim_left_split (rev b)) as [w [Hw E]].
+  destruct (trim_left (rev b)) as [|d t] eqn:T.
+  - rewrite app_nil_r in E. rewrite E. rewrite trim_left_ws_app by exact Hw.
+    rewrite rev_app_distr. cbn [rev app]. rewrite trim_left_nonspace by exact H.
+    change (c :: rev a) with (rev (a ++ [c]) ) || idtac.
+    cbn [rev]. rewrite app_nil_r.
+    replace (c :: rev a) with (rev (a ++ [c])) by (rewrite rev_app_distr; reflexivity).
+    rewrite rev_involutive. reflexivity.
+  - rewrite E at 1. rewrite <- app_assoc. rewrite trim_left_ws_app by exact Hw.
+    pose proof (trim_left_head (rev b) d t T) as Hd.
+    cbn [app]. rewrite trim_left_nonspace by exact Hd.
+    change (d :: t ++ rev (a ++ [c])) with ((d :: t) ++ rev (a ++ [c])).
+    rewrite rev_app_distr, rev_involutive. reflexivity.
+Qed.
+
+Lemma trim_right_idem : forall s, trim_right (trim_right s) = trim_right s.
+Proof. intros s. unfold trim_right. rewrite rev_involutive, trim_left_idem. reflexivity. Qed.
+
+(* trim_right splits off a white-space suffix *)
+Lemma trim_right_split : forall s, exists w, all_ws w = true /\ s = trim_right s ++ w.
+Proof.
+  intros s. destruct (trim_left_split (rev s)) as [w [Hw E]].
+  exists (rev w). split; [rewrite all_ws_rev; exact Hw|].
+  unfold trim_right. rewrite <- rev_app_distr, <- E, rev_involutive. reflexivity.
+Qed.
+
+Lemma trim_right_last : forall s c r, rev (trim_right s) = c :: r -> is_space c = false.
+Proof.
+  intros s c r H. unfold trim_right in H. rewrite rev_involutive in H. exact (trim_left_head _ _ _ H).
+Qed.
+
+Lemma trim_ws_app_l : forall w s, all_ws w = true -> trim (w ++ s) = trim s.
+Proof. intros. unfold trim. rewrite trim_left_ws_app by assumption. reflexivity. Qed.
+
+Lemma trim_left_app_nonws : forall a b, trim_left a <> [] -> trim_left (a ++ b) = trim_left a ++ b.
+Proof.
+  induction a as [|c a IH]; intros b H; [cbn in H; congruence|].
+  cbn [app trim_left] in *. destruct (is_space c); [exact (IH b H) | reflexivity].
+Qed.
+
+Lemma trim_ws_app_r : forall s w, all_ws w = true -> trim (s ++ w) = trim s.
+Proof.
+  intros s w H. unfold trim. destruct (trim_left s) as [|c t] eqn:E.
+  - destruct (trim_left_split s) as [w0 [Hw0 E0]]. rewrite E, app_nil_r in E0. subst s.
+    rewrite trim_left_all_ws by (rewrite all_ws_app, Hw0, H; reflexivity). reflexivity.
+  - rewrite trim_left_app_nonws by (rewrite E; discriminate). rewrite E.
+    apply trim_right_app_ws. exact H.
+Qed.
+
+Lemma trim_trim_right : forall s, trim (trim_right s) = trim s.
+Proof.
+  intros s. destruct (trim_right_split s) as [w [Hw E]]. rewrite E at 2.
+  rewrite trim_ws_app_r by exact Hw. reflexivity.
+Qed.
+
+Lemma trim_trim_left : forall s, trim (trim_left s) = trim s.
+Proof. intros s. unfold trim. rewrite trim_left_idem. reflexivity. Qed.
+
+Lemma trim_all_ws : forall w, all_ws w = true -> trim w = [].
+Proof. intros w H. unfold trim. rewrite trim_left_all_ws by exact H. reflexivity. Qed.
+
+(* a string that starts and ends with a non-space byte is its own trim *)
+Lemma trim_exact : forall w1 y w2 c r c' r',
+  all_ws w1 = true -> all_ws w2 = true -> y = c :: r -> is_space c = false ->
+  rev y = c' :: r' -> is_space c' = false -> trim (w1 ++ y ++ w2) = y.
+Proof.
+  intros w1 y w2 c r c' r' H1 H2 Ey Hc Er Hc'.
+  rewrite trim_ws_app_l by exact H1. rewrite trim_ws_app_r by exact H2.
+  unfold trim. rewrite Ey, trim_left_nonspace by exact Hc. rewrite <- Ey.
+  unfold trim_right. rewrite Er, trim_left_nonspace by exact Hc'. rewrite <- Er. apply rev_involutive.
+Qed.
+
+Lemma trim_right_head : forall c t, is_space c = false -> exists t', trim_right (c :: t) = c :: t'.
+Proof.
+  intros c t H. unfold trim_right. cbn [rev].
+  destruct (trim_left_split (rev t)) as [w [Hw E]].
+  destruct (trim_left (rev t)) as [|d u] eqn:T.
+  - rewrite app_nil_r in E. rewrite E. rewrite trim_left_ws_app by exact Hw.
+    rewrite trim_left_nonspace by exact H. exists []. reflexivity.
+  - rewrite trim_left_app_nonws by (rewrite T; discriminate). rewrite T.
+    rewrite rev_app_distr. cbn [rev app]. eexists. reflexivity.
+Qed.
+
+Lemma remove_ws_trim_left : forall s, remove_ws (trim_left s) = remove_ws s.
+Proof.
+  intros s. destruct (trim_left_split s) as [w [Hw E]]. rewrite E at 2.
+  rewrite remove_ws_app, (remove_ws_all_ws w Hw). reflexivity.
+Qed.
+
+Lemma remove_ws_trim_right : forall s, remove_ws (trim_right s) = remove_ws s.
+Proof.
+  intros s. destruct (trim_right_split s) as [w [Hw E]]. rewrite E at 2.
+  rewrite remove_ws_app, (remove_ws_all_ws w Hw). rewrite app_nil_r. reflexivity.
+Qed.
+
+Lemma remove_ws_trim : forall s, remove_ws (trim s) = remove_ws s.
+Proof. intros. unfold trim. rewrite remove_ws_trim_right, remove_ws_trim_left. reflexivity. Qed.
+
+(* ---- index_pred / go_slice on appended strings *)
+Lemma go_slice_full : forall s, go_slice s 0 (length s) = Ok s.
+Proof. intros s. rewrite <- (app_nil_r s) at 1. rewrite go_slice_prefix. reflexivity. Qed.
+
+Lemma go_slice_end : forall s, go_slice s (length s) (length s) = Ok [].
+Proof. intros s. rewrite <- (app_nil_r s) at 1 3. rewrite go_slice_suffix. reflexivity. Qed.
